@@ -31,6 +31,10 @@ inductive Base where
   | arg (lo : Bool)
   deriving DecidableEq, Repr, Inhabited
 
+def Base.isNull : Base → Bool
+  | .null => true
+  | _ => false
+
 structure Ptr where
   base : Base
   off : Nat
@@ -102,11 +106,11 @@ def prel (p q : Ptr) : Option (Nat × Nat) :=
 
 def ple (p q : Option Ptr) : Option Bool :=
   match p, q with
-  | some p, some q => (prel p q).map (fun r => decide (r.1 ≤ r.2))
+  | some p, some q => (prel p q).map (fun r => Nat.ble r.1 r.2)
   | _, _ => none
 def plt (p q : Option Ptr) : Option Bool :=
   match p, q with
-  | some p, some q => (prel p q).map (fun r => decide (r.1 < r.2))
+  | some p, some q => (prel p q).map (fun r => Nat.blt r.1 r.2)
   | _, _ => none
 def pge (p q : Option Ptr) : Option Bool := ple q p
 def pgt (p q : Option Ptr) : Option Bool := plt q p
@@ -145,11 +149,11 @@ def nshl (a b : Option Nat) : Option Nat :=
   | _, _ => none
 def nle (a b : Option Nat) : Option Bool :=
   match a, b with
-  | some a, some b => some (decide (a ≤ b))
+  | some a, some b => some (Nat.ble a b)
   | _, _ => none
 def nlt (a b : Option Nat) : Option Bool :=
   match a, b with
-  | some a, some b => some (decide (a < b))
+  | some a, some b => some (Nat.blt a b)
   | _, _ => none
 def nge (a b : Option Nat) : Option Bool := nle b a
 def ngt (a b : Option Nat) : Option Bool := nlt b a
@@ -159,7 +163,7 @@ def neq (a b : Option Nat) : Option Bool :=
   | _, _ => none
 
 /-- `p` used as a condition: `p != 0` -/
-def truthy (p : Option Ptr) : Option Bool := p.map (fun p => decide (p.base ≠ .null))
+def truthy (p : Option Ptr) : Option Bool := p.map (fun p => !p.base.isNull)
 def bnot (a : Option Bool) : Option Bool := a.map (fun a => !a)
 /-- `a && b`: `b` is evaluated only when `a` is true -/
 def band (a b : Option Bool) : Option Bool :=
